@@ -181,6 +181,9 @@ class ConnObj(SObj):
                    pc_len=len(it.ctx.pc), loops=_loops(it))
         it.ctx.effects.append(ev)
         self.world.statements.append(ev)
+        if isinstance(stmt, P.WithStmt) and isinstance(stmt.body, (P.Insert, P.Update, P.Delete)):
+            ev.extra['leading_with'] = True        # CTE-prefixed write: see C06 (no implicit BEGIN in Python's sqlite3)
+            return self
         if isinstance(stmt, (P.Select, P.WithStmt)):
             if many:
                 raise Unsupported('executemany with a SELECT')
